@@ -6,7 +6,7 @@ import re
 
 from hypothesis import strategies as st
 
-from pbt import gen, model
+from pbt import apigen, gen, model, widegen
 from pbt.worker import outcome
 
 # names CoreGen can emit as user-chosen identifiers: prefix + number
@@ -28,6 +28,15 @@ MAMBA_KEYWORDS = {"from", "type", "class", "pure", "as", "import", "forward", "v
                   "with", "in", "raise", "handle", "when", "pass", "self", "init", "_and_", "_or_", "_xor_", "_not_", "_",
                   "True", "False", "None", "Int", "Str", "Bool", "Float", "Complex", "List", "Set", "Tuple", "Dict", "Any",
                   "Range", "Slice", "Exception", "print", "input", "Callable", "Union", "Collection"}
+
+
+# names of which one is a prefix of another: a rule keyed on how a spelling begins shows when two of them meet in one program
+PREFIXY = ["s", "si", "siz", "size", "sizes", "res", "resu", "result", "results", "x", "x1", "x12", "ab", "abc", "abcd", "it", "item",
+           "items", "e", "er", "err", "error", "n", "nu", "num", "numb", "t", "to", "tot", "total", "se", "sel", "selfish", "m",
+           "ma", "mat", "mathx", "i", "in_", "ini", "init_"]
+API_NAMES = ["ua%d" % i for i in range(1, 60)]
+API_WORD = re.compile(r"\b\w*ua\d+\w*\b")
+WIDE_WORD = re.compile(widegen.USER_NAME)
 
 
 def legal_target(name):
@@ -57,10 +66,41 @@ def _case(draw, allow_capturable, allow_context_names=True):
     return {"src": src, "mapping": mapping, "tricky": tricky_used, "annotate": draw(st.booleans())}
 
 
-def rename_text(text, mapping):
+@st.composite
+def _word_case(draw, kind, allow_capturable, allow_context_names=True):
+    """apigen / WideGen programs: every user-chosen identifier is recognisable as a whole word; the renaming maps whole words."""
+    if kind == "api":
+        src = draw(apigen.programs(names=API_NAMES))["src"]
+        words = sorted(set(API_WORD.findall(src)), key=lambda s: (len(s), s))
+    else:
+        src = draw(widegen.programs())["src"]
+        words = sorted(set(WIDE_WORD.findall(src)), key=lambda s: (len(s), s))
+    prefixy = draw(st.booleans())
+    pool = [n for n in (PREFIXY if prefixy else []) + ORDINARY + TRICKY + (CAPTURABLE if allow_capturable else []) if legal_target(n)
+            and (allow_context_names or n not in ("Generic", "collection_iter"))]
+    pool = list(dict.fromkeys(pool))
+    head = draw(st.permutations(pool[:len(PREFIXY)])) if prefixy else []
+    order = list(head) + list(draw(st.permutations(pool[len(head):])))
+    mapping, tricky_used, k = {}, 0, 0
+    for w in words:
+        if draw(st.integers(0, 99)) < 75 and k < len(order):
+            tgt = order[k]
+            k += 1
+            if w[0].isupper():
+                tgt = tgt[0].upper() + tgt[1:]   # a class stays recognisable as a class for the reader; any identifier is legal
+                if not legal_target(tgt) or tgt in mapping.values():
+                    continue
+            mapping[w] = tgt
+            if tgt in TRICKY or tgt in CAPTURABLE or tgt in PREFIXY:
+                tricky_used += 1
+    return {"src": src, "mapping": mapping, "tricky": tricky_used, "annotate": draw(st.booleans()), "words": kind}
+
+
+def rename_text(text, mapping, words=None):
     if not mapping:
         return text
-    return USER_NAME.sub(lambda m: mapping.get(m.group(0), m.group(0)), text)
+    rx = {"api": API_WORD, "wide": WIDE_WORD}.get(words, USER_NAME)
+    return rx.sub(lambda m: mapping.get(m.group(0), m.group(0)), text)
 
 
 def identifiers(py):
@@ -143,10 +183,12 @@ def captures(p0, p1, names):
 class C15:
     id = "C15"
     cases = {"quick": 110, "thorough": 8000}
-    rule = ("CoreGen programs whose user-chosen names all have the form prefix+number (disjoint from everything the generator "
+    rule = ("CoreGen programs, API-shaped programs (classes whose fields and methods are mixed in any order, operators, interfaces) and "
+            "WideGen programs (builders, with, lambdas, unions, ...) whose user-chosen names all have the form prefix+number (disjoint from everything the generator "
             "emits) and an injective renaming of ~70% of them into a pool of ordinary names and names that resemble internal or "
             "Python-special names (size, init, super, typing, abc, Optional, Union, Callable, NewType, ABC, abstractmethod, "
-            "Generic, err, it, G0, T, x1, x_1, cls, args, object, Tuple, Any, _private, ...); Mamba keywords, documented specials "
+            "Generic, err, it, G0, T, x1, x_1, cls, args, object, Tuple, Any, _private, ...) and, in half of the API / WideGen cases, chains "
+            "of names of which one is a prefix of the next (s, si, siz, size, ...; res, result, results); Mamba keywords, documented specials "
             "and Python hard keywords excluded. The renaming is applied to the Mamba text and, for comparison, to the Python text. "
             "Oracle: (a) same verdict; (b) ast(rename(out(P))) == ast(out(rename P)); (c) no capture: no target name that the "
             "renamed program binds is an identifier that out(P) uses without P having chosen it. Non-trivial: accepted and >=1 "
@@ -159,7 +201,9 @@ class C15:
     def strategy(self, tier, switches):
         # open findings F14 (capture of math/range/...) and F40 (names of context classes) remove names from the pool
         self.allow_capturable = "c15.no_capturable_names" not in switches
-        return _case(self.allow_capturable, "c15.no_context_class_names" not in switches)
+        ctx_names = "c15.no_context_class_names" not in switches
+        return st.one_of(_case(self.allow_capturable, ctx_names), _case(self.allow_capturable, ctx_names),
+                         _word_case("api", self.allow_capturable, ctx_names), _word_case("wide", self.allow_capturable, ctx_names))
 
     def summarize(self, case):
         return {"mapping": case["mapping"], "annotate": case["annotate"], "src": case["src"][:700]}
@@ -170,7 +214,9 @@ class C15:
 
     def check(self, worker, case, stats):
         src, mapping, ann = case["src"], case["mapping"], case["annotate"]
-        rsrc = rename_text(src, mapping)
+        words = case.get("words")
+        stats.inc("gen:" + (words or "core"))
+        rsrc = rename_text(src, mapping, words)
         r0 = worker.transpile1(src, ann)
         r1 = worker.transpile1(rsrc, ann)
         o0, o1 = outcome(r0), outcome(r1)
@@ -192,7 +238,7 @@ class C15:
             stats.mark_nontrivial({"s": src, "m": mapping}, sample=self.summarize(case))
         p0, p1 = r0["ok"][0], r1["ok"][0]
         try:
-            d_renamed = ast.dump(ast.parse(rename_text(p0, mapping)))
+            d_renamed = ast.dump(ast.parse(rename_text(p0, mapping, words)))
             d_direct = ast.dump(ast.parse(p1))
             ids0 = identifiers(p0)
         except SyntaxError:
